@@ -1099,4 +1099,62 @@ theorem tokenize_failure_after_done :
       = .ok [.msg ⟨sHi, ⟨true, false, [], 0, 0⟩, none⟩, .msg ⟨[], ⟨true, true, sStop, 5, 7⟩, none⟩] :=
   ⟨rfl, rfl, rfl⟩
 
+/-! ## `api.Client` sees what is on the wire -/
+
+theorem client_view_msgs {α : Type} [Inhabited α] (ms : List α) : clientView (ms.map Item.msg) = (ms, none) := by
+  induction ms with
+  | nil => rfl
+  | cons m ms ih => simp [clientView, ih]
+
+/-- messages up to the first (non-empty) error line are delivered to the callback, that error is
+    returned, nothing after it is looked at -/
+theorem client_view_err {α : Type} [Inhabited α] (ms : List α) (m : Bytes) (rest : List (Item α)) (hm : m.isEmpty = false) :
+    clientView (ms.map Item.msg ++ Item.err m :: rest) = (ms, some m) := by
+  induction ms with
+  | nil => simp [clientView, hm]
+  | cons x xs ih => simp [clientView, ih]
+
+/-- **Through `api.Client` (generate)**: for a successful run the callback receives exactly the
+    streamed messages and `Generate` returns nil, so client-side aggregation of the stream (concatenate
+    `response`, keep the last message) equals the `stream:false` reply; for a failing run both
+    `Generate` calls return the runner's error. -/
+theorem client_generate_equiv (raw : Bool) (pl : Nat) (cs : List Chunk) :
+    (let v := clientView (genStream raw pl cs .ok)
+     v.2 = none ∧ genOnce raw pl cs .ok = .ok { lastOr default v.1 with resp := (v.1.map (·.resp)).flatten })
+    ∧ ∀ m, m.isEmpty = false →
+        (clientView (genStream raw pl cs (.err m))).2 = some m ∧ genOnce raw pl cs (.err m) = .error m := by
+  constructor
+  · have h : clientView (genStream raw pl cs .ok) = (genCallback raw pl cs [], none) := by
+      simp only [genStream, genChan, endItems, List.append_nil]; exact client_view_msgs _
+    have hst : msgsOf (genStream raw pl cs .ok) = genCallback raw pl cs [] := by
+      simp only [genStream, genChan]; exact msgsOf_chan _ _
+    have := (generate_equiv raw pl cs).1
+    simp only [hst] at this
+    simp only [h]
+    exact ⟨trivial, this⟩
+  · intro m hm
+    refine ⟨?_, genOnce_err _ _ _ _⟩
+    simp only [genStream, genChan, endItems]
+    rw [client_view_err _ m [] hm]
+
+/-- **Through `api.Client` (chat without tools)**. -/
+theorem client_chat_equiv (parse : Bytes → List Call) (cs : List Chunk) :
+    (let v := clientView (chatStream parse false cs .ok)
+     v.2 = none ∧ chatOnce parse false cs .ok = .ok { lastOr default v.1 with content := (v.1.map (·.content)).flatten })
+    ∧ ∀ (tools : Bool) (m : Bytes), m.isEmpty = false →
+        (clientView (chatStream parse tools cs (.err m))).2 = some m ∧ chatOnce parse tools cs (.err m) = .error m := by
+  constructor
+  · have h : clientView (chatStream parse false cs .ok) = (chatCallback parse false cs [] 0, none) := by
+      simp only [chatStream, chatChan, endItems, List.append_nil]; exact client_view_msgs _
+    have hst : msgsOf (chatStream parse false cs .ok) = chatCallback parse false cs [] 0 := by
+      simp only [chatStream, chatChan]; exact msgsOf_chan _ _
+    have := (chat_equiv parse cs).1
+    simp only [hst] at this
+    simp only [h]
+    exact ⟨trivial, this⟩
+  · intro tools m hm
+    refine ⟨?_, chatOnce_err _ _ _ _⟩
+    simp only [chatStream, chatChan, endItems]
+    rw [client_view_err _ m [] hm]
+
 end OllamaVerif.C17
